@@ -25,7 +25,7 @@ func register(p *Prop) { p.Assumptions = append(p.Assumptions, common...); Props
 func init() {
 	register(&Prop{
 		ID:    "C01",
-		Rules: []func(*core.Ctx){ROp, RStk, RBracket, REmptyIter, RSib, RMask, RCrawlPair, RRuneStr},
+		Rules: []func(*core.Ctx){ROp, RStk, RBracket, REmptyIter, RSib, RMask, RCrawlPair, RRuneStr, REnumPos},
 		Explanation: "Static analysis of the bytecode contract between syntax/writer.go (emit sites), syntax/code.go (opcodeSize, opcodeBacktracks, constant blocks) and runner.go (executeDefault's switch): " +
 			"R-OP1 handler/size exists for every emitted opcode; R-OP2 operand/advance constants agree with opcodeSize; R-OP3 backtracking frame shape (push arity vs pop arity vs existence of Back/Back2 clauses, path-enumerated per clause on go/cfg); " +
 			"R-OP4 numeric identity NodeType==InstOp and family strides used by retyping arithmetic; R-OP5 debug tables; R-STK grouping-stack balance of every emitFragment bracket pair. " +
@@ -33,7 +33,7 @@ func init() {
 	})
 	register(&Prop{
 		ID:    "C06",
-		Rules: []func(*core.Ctx){RSurface, RByteUnit, RUnsetPair, RNZero, RPrevInit, RDialectSib, RTentative, RPosixASCII, RUnitCmp, RLazyTable, rDirFoldOnly, RMapState, rCountNOnly, RNodeOpts, RTextSlice, RNilEmpty},
+		Rules: []func(*core.Ctx){RSurface, RByteUnit, RUnsetPair, RNZero, RPrevInit, RDialectSib, RTentative, RPosixASCII, RUnitCmp, ROffTable, RLazyTable, rDirFoldOnly, RMapState, rCountNOnly, RNodeOpts, RTextSlice, RNilEmpty},
 		Explanation: "Structural necessary conditions of the adapter agreeing with the standard library: R-SURFACE (method-set and signature agreement with *regexp.Regexp, on go/types), R-BYTEUNIT (no rune position reaches an []int the adapter fills or a bound of a byte slice: SSA taint from Capture.RuneIndex / RuneLength, sanitised only by indexing an offset table), R-UNSETPAIR (groups without captures give -1 pairs / nil / \"\"), R-NZERO (n == 0 gives nil), R-PREVINIT (the first empty match is not dropped), R-DIALECTSIB (\\w \\d \\s \\b and their forms inside a class pick their ASCII dialect under the same option predicates), R-UNITCMP, R-LAZYTABLE, R-DIRFOLD (shared with C07/C08). " +
 			"That the adapter returns what the standard library returns for a pattern and input is an equality between two engines and is NOT decided.",
 	})
@@ -75,7 +75,7 @@ func init() {
 	})
 	register(&Prop{
 		ID:    "C03",
-		Rules: []func(*core.Ctx){ROrigin, RMode, RMinLen, RRtlFilter, RFixedDistSib, RTableDom, RLmMin, RDirTrunc, RSentinel, RBumpWalk, RDeadCopy, RFwdOnly, RCaseBit, RLmAlt, RFailProp, RMinLenZero, RCiExact, RNoMatchExit, RLmStart, RGapKind, RSearchStep},
+		Rules: []func(*core.Ctx){ROrigin, RMode, RMinLen, RRtlFilter, RFixedDistSib, RTableDom, RLmMin, RDirTrunc, RSentinel, RBumpWalk, RDeadCopy, RFwdOnly, RCaseBit, RLmAlt, RFailProp, RMinLenZero, RCiExact, RNoMatchExit, RLmStart, RGapKind, RSearchStep, RKeepLook},
 		Explanation: "R-ORIGIN (a candidate proposed by the accelerator never becomes the \\G origin: interprocedural taint from the filter result to scan's textstart), R-MODE (producer/consumer agreement on the find-mode record: every field a finder arm reads is assigned before the mode is set; accepted modes have a finder), R-MINLEN (the minimum-length fact is used only as a bound on the remaining length), R-RTLFILTER, R-TABLEDOM (every entry the Boyer-Moore builder records is within reach of the scanner's lookups: writer/reader guard agreement), R-LMMIN (the landmark-chain search continues from the minimal, not the greedy, end of a landmark). " +
 			"Structural conditions for the accelerator to be a pure accelerator. The arithmetic of each finder and the truth of the facts (C04) are NOT decided.",
 	})
@@ -105,7 +105,7 @@ func init() {
 	})
 	register(&Prop{
 		ID:    "C17",
-		Rules: []func(*core.Ctx){RSlot, RCapsKey, RCapNode, RSkipTaken, ROptStack, RIgnParen, RDigitAcc, RLazyBuf, RLazyFull, RNameOnce, RParserFresh, RNoAlias, RPrescanSib, ROptWrite, RNumCheck},
+		Rules: []func(*core.Ctx){RSlot, RCapsKey, RCapNode, RSkipTaken, ROptStack, RIgnParen, RDigitAcc, RLazyBuf, RLazyFull, RNameOnce, RParserFresh, RNoAlias, RPrescanSib, ROptWrite, RNumCheck, RMapOK, RDigitName},
 		Explanation: "R-SLOT (group numbers reach slot indexes only through the number->slot maps, in the writer, the replacement data, GroupByNumber and initMatch; internal GroupByNumber callers pass numbers, not dense indexes), R-CAPNODE (every capture node created by the main parse accounts for its slot like the pre-scan does), R-SKIPTAKEN (a named group gets the next number that is not taken). " +
 			"That the pre-scan and the main parse assign the same numbers in every case, name ordering and duplicate-name rules are NOT decided.",
 	})
@@ -129,7 +129,7 @@ func init() {
 	})
 	register(&Prop{
 		ID:    "C08",
-		Rules: []func(*core.Ctx){RCapNorm, RLastCap, RNonNegLen, RRuneWidth, RLazyTable, RStepDecode, RStrText, RUnits, RUnitCmp, RRuneLenNeg, RCompactSib, RLazyFull, RMapState, RValidFlag, RRefDepth, RRangeByte},
+		Rules: []func(*core.Ctx){RCapNorm, RLastCap, RNonNegLen, RRuneWidth, RLazyTable, RStepDecode, RStrText, RUnits, RUnitCmp, RRuneLenNeg, RCompactSib, RLazyFull, RMapState, RValidFlag, RRefDepth, RRangeByte, ROffTable},
 		Explanation: "R-CAPNORM (capture lengths are computed after the end<start swap), R-LASTCAP (a group's embedded capture is its last one; group 0 has exactly one capture from matches[0]: affine evaluation of the index expressions), R-RUNEWIDTH (every byte mapper that sizes runes with RuneLen re-decodes under RuneError), R-STRTEXT (string entry points build match text from the original string), R-UNITS (byte offsets never become rune positions). " +
 			"0 <= index <= index+length <= len for every capture (which depends on the interpreter's positions), balancing compaction and value-for-value agreement of the mappers are NOT decided.",
 	})
